@@ -13,7 +13,8 @@ namespace net
     ZRef() : slv(ctx)
     {
       z3::params p(ctx);
-      p.set("rlimit", 4000000u); // deterministic resource limit instead of a wall-clock timeout
+      p.set("rlimit", 4000000u); // deterministic resource limit ...
+      p.set("timeout", 3000u);   // ... and a wall-clock backstop; either way the answer is "unknown" = inconclusive
       slv.set(p);
     }
     z3::expr zb(smt::var v)
@@ -48,9 +49,25 @@ namespace net
       }
       return s;
     }
-    z3::expr zatom(int th, const LinR &e, int rel)
+    z3::expr zatom(int th, const LinR &e0, int rel)
     {
-      z3::expr l = zlin(th, e), z = ctx.real_val(0);
+      z3::expr l(ctx), z(ctx);
+      if (th == IDL)
+      { // pure integer arithmetic: scale by the (positive) lcm of all denominators
+        mpz_class L = e0.k.get_den();
+        for (auto &p : e0.t)
+          L = lcm(L, p.second.get_den());
+        LinR e = e0.times(mpq_class(L));
+        l = ctx.int_val(e.k.get_num().get_str().c_str());
+        for (auto &p : e.t)
+          l = l + ctx.int_val(p.second.get_num().get_str().c_str()) * zx(th, p.first);
+        z = ctx.int_val(0);
+      }
+      else
+      {
+        l = zlin(th, e0);
+        z = ctx.real_val(0);
+      }
       switch (rel)
       {
       case LT:
